@@ -40,6 +40,10 @@ type fileConfig struct {
 	callbacks    []ConfigReloadCallback
 	mux          sync.RWMutex
 	lastLoadTime time.Time
+
+	// reloadMux serialises Reload: reloads are triggered concurrently (timer,
+	// pubsub) and must read, compare and apply one at a time.
+	reloadMux sync.Mutex
 }
 
 // ensure that fileConfig implements Config
@@ -651,9 +655,30 @@ func NewConfig(opts *CmdEnv, currentVersion ...string) (Config, error) {
 // Reload attempts to reload the configuration; if it has changed, it stores the
 // new data and calls the reload callbacks.
 func (f *fileConfig) Reload(opts ...ReloadedConfigDataOption) error {
+	// Overlapping reloads must not interleave: a reload that read older file
+	// content must not overwrite what a later one applied, and one change must
+	// be applied and announced once.
+	f.reloadMux.Lock()
+	cfg, changed, err := f.reloadLocked(opts...)
+	f.reloadMux.Unlock()
+	if !changed {
+		return err
+	}
+
+	// callbacks run outside the reload lock so that they may call back into the config
+	f.mux.RLock()
+	callbacks := f.callbacks
+	f.mux.RUnlock()
+	for _, cb := range callbacks {
+		cb(cfg.mainHash, cfg.rulesHash)
+	}
+	return err
+}
+
+func (f *fileConfig) reloadLocked(opts ...ReloadedConfigDataOption) (*fileConfig, bool, error) {
 	cData, rData, err := newConfigAndRules(f.opts)
 	if err != nil {
-		return err
+		return nil, false, err
 	}
 
 	newData := &ReloadedConfigData{
@@ -668,26 +693,26 @@ func (f *fileConfig) Reload(opts ...ReloadedConfigDataOption) error {
 	// reread the configs
 	cfg, err := newFileConfig(f.opts, newData.configs, newData.rules)
 	if err != nil {
-		return err
+		return nil, false, err
 	}
 
 	// if nothing's changed, we're fine
-	if f.mainHash == cfg.mainHash && f.rulesHash == cfg.rulesHash {
-		return nil
+	f.mux.RLock()
+	unchanged := f.mainHash == cfg.mainHash && f.rulesHash == cfg.rulesHash
+	f.mux.RUnlock()
+	if unchanged {
+		return nil, false, nil
 	}
 
-	// otherwise, update our state and call the callbacks
+	// otherwise, update our state; the caller runs the callbacks
 	f.mux.Lock()
 	f.mainConfig = cfg.mainConfig
 	f.mainHash = cfg.mainHash
 	f.rulesConfig = cfg.rulesConfig
 	f.rulesHash = cfg.rulesHash
-	f.mux.Unlock() // can't defer -- we don't want callbacks to deadlock
+	f.mux.Unlock()
 
-	for _, cb := range f.callbacks {
-		cb(cfg.mainHash, cfg.rulesHash)
-	}
-	return nil
+	return cfg, true, nil
 }
 
 // GetHashes returns the current hash values for the main and rules configs.
